@@ -90,7 +90,8 @@ Spec == Init /\ [][Next]_vars
 AtEnd == stage = "run" /\ ev.pc = "done"
 
 PropertyHolds == AtEnd => DoneOK(cfg, ev.calls, ev.authz, ev.o)
-CallsOK       == stage = "run" => \A i \in DOMAIN ev.calls : CallOK(cfg, ev.calls[i])
+CallsOK       == stage = "run" => /\ \A i \in DOMAIN ev.calls : CallOK(cfg, ev.calls[i])
+                                  /\ CallScopesOK(cfg, ev.calls, ev.cscopes)
 
 \* structural sanity of the model itself
 TypeOK == /\ ev.pc \in {"secure", "alts", "schemes", "authorize", "pipeline", "done"}
